@@ -4,6 +4,9 @@ open Model
 open Base
 type string = Stdlib.String.t
 
+(* id of the case being checked (set by the driver) *)
+let cur_id = ref ""
+
 let b_of s = bytes_of_atom (atom s)
 let z_of s = z_of_atom (atom s)
 
@@ -26,6 +29,9 @@ let val_of (s : sexp) : value = match s with
   | L [A "int4"; n] -> VInt4 (z_of n)
   | L [A "int8"; n] -> VInt8 (z_of n)
   | L [A "bool"; n] -> VBool (atom n <> "0")
+  | L [A "uuid"; b] -> VUuid (b_of b)
+  | L [A "float4"; n] -> VFloat4 (z_of n)
+  | L [A "float8"; n] -> VFloat8 (z_of n)
   | s -> failwith ("val_of: " ^ show_sexp s)
 
 let op_of (s : sexp) : hop = match s with
@@ -227,6 +233,8 @@ let cq_val = function
   | VText b -> "(VText " ^ cq_bytes b ^ ")" | VBytea b -> "(VBytea " ^ cq_bytes b ^ ")"
   | VInt2 z -> "(VInt2 " ^ cq_z z ^ ")" | VInt4 z -> "(VInt4 " ^ cq_z z ^ ")" | VInt8 z -> "(VInt8 " ^ cq_z z ^ ")"
   | VBool b -> "(VBool " ^ cq_bool b ^ ")"
+  | VUuid b -> "(VUuid " ^ cq_bytes b ^ ")"
+  | VFloat4 z -> "(VFloat4 " ^ cq_z z ^ ")" | VFloat8 z -> "(VFloat8 " ^ cq_z z ^ ")"
 let cq_op = function
   | HRow vs -> "(HRow " ^ cq_list cq_val vs ^ ")" | HWritten -> "HWritten" | HEmpty -> "HEmpty"
   | HComplete t -> "(HComplete " ^ cq_bytes t ^ ")" | HCopyIn f -> "(HCopyIn " ^ cq_z f ^ ")" | HCopyRead -> "HCopyRead"
